@@ -11,6 +11,10 @@ from vlib.gens import hx, nat_pattern, PATTERNS
 GROUP = "cross"
 LEAN_PROPS = "Dashu.Props.C14"
 LEAN_AUDIT = "Dashu.Audit.C14"
+# Tie A, typed translator: float/src/cmp.rs and rational/src/cmp.rs regenerated and proved equal to `Model/Cross/Ord.lean`
+USES_GEN = True
+GEN_PROPS = ["Dashu.Props.GenFloatCmp", "Dashu.Props.GenRatCmp"]
+GEN_AUDIT = ["Dashu.Audit.GenFloatCmp", "Dashu.Audit.GenRatCmp"]
 
 M127 = (1 << 127) - 1
 UTYPES = [("u8", 8), ("u16", 16), ("u32", 32), ("u64", 64), ("u128", 128), ("usize", 64)]
@@ -491,6 +495,12 @@ def gen_encl(rng, tier):
             if L <= 4097:
                 for B in (2, 10, 16):
                     yield Case("log2encl", [fenc(B, x, rng.choice([0, 3, -7, 1000, -1000]), prec=0)])
+    # rational bounds are differences of two f32 bounds: an exact (power-of-two) part against a tight one, in a larger binade
+    for _ in range(300 if tier == "quick" else 4000):
+        k = rng.randrange(2, 128)
+        d = rng.randrange(3, 1 << rng.choice([3, 7, 12, 20, 24])) | 1
+        a, b = (1 << k, d) if rng.random() < 0.5 else (d, 1 << k)
+        yield Case("log2encl", ["q:%s/%s:%s" % (hx(a * rng.choice([1, -1])), hx(b), rng.choice("RX"))])
     es = [0, 1, -1, 100, -100, 10 ** 6, -10 ** 6, (1 << 24) - 1, 1 << 24, (1 << 24) + 1, (1 << 24) + 3, (1 << 25) + 2, (1 << 25) + 6,
           (1 << 26) + 4, (1 << 26) + 12, (1 << 27) + 8, 10 ** 9, 10 ** 12 + 1, 10 ** 15 + 7, (1 << 40) + (1 << 16), (1 << 62) + 12345]
     n = 4 if tier == "quick" else 40
@@ -577,13 +587,19 @@ REFINED = [
     "NumHash for UBig, IBig, Repr<B>/FBig, rational Repr (RBig, Relaxed), and num-order's impls for every primitive integer and f32/f64: "
     "each feeds hashQ(value) = +-(|n| mod M)(d mod M)^-1 in Z/M, M = 2^127-1 proved prime; rational Repr first cancels a common factor M; full: equal values feed the same i128",
     "base/src/sign.rs AbsOrd for iN (unsigned_abs)",
+    "num-modular FixedMersenneInt<127,1> = ReducedInt<u128, FixedMersenne<127,1>>: reduce_single (fold loop), reduce_double (udouble variant, two unrolled "
+    "folds: proved sufficient and overflow-free on products of residues), mul, sqr, binary pow with its 1/2 shortcuts, inv via u128::invm (extended Euclid) "
+    "-- mirrored and proved = arithmetic mod 2^127-1; the NumHash impls re-expressed through them (numHashFeedM, what the driver runs) never hit the unwrap "
+    "and equal the arithmetic description",
+    "NumHash at the infinities (FBig +-inf vs f32/f64 +-inf feed 0)",
     "the driver's oracles (bit-length bounds with a 1/1024-precise rational enclosure of log2 B; never-filter) satisfy the enclosure hypothesis",
 ]
 FRONTIER = [
     "Ord for UBig/IBig (TypedReprRef::cmp, cmp_in_place), shl_digits / << / * / UBig::pow on big integers: used at their value (compare, *B^n); refined by C01/C05",
-    "num-modular FixedMersenneInt<127,1> (convert/pow/inv): used at its specification (arithmetic mod 2^127-1; inv = the unique inverse)",
+    "num-modular u128::mulm inside invm (a*b mod m through udouble) used at its value; machine u128 sums of FixedMersenne are Nat sums (proved overflow-free on residues)",
     "the real f32 estimators (UBig/IBig/Repr<B>/rational log2_bounds, digits_ub): a PARAMETER of the theorems; the enclosure hypothesis is checked "
-    "on the real code per generated input by the harness op log2encl (f64 recomputation), not proved",
+    "on the real code per generated input by the harness op log2encl (certified integer interval arithmetic: log2 enclosed to 2^-137 by repeated squaring "
+    "with directed rounding, f32 bounds decoded exactly; no libm, no floats), not proved: libm's log2f inside the estimators cannot be specified",
 ]
 RULE = ("values drawn from families {small integers, boundaries of every primitive integer type, f32/f64 range boundaries (2^24, 2^53, max, least "
         "subnormal, 2^1024, bit lengths 1077/1078), multiples and neighbours of M = 2^127-1, integers of 1..40 words in 11 bit patterns, dyadic, "
@@ -596,7 +612,7 @@ RULE = ("values drawn from families {small integers, boundaries of every primiti
         "exponent+digits shortcut boundaries; denominators that are multiples of M (reduced RBig vs non-reduced Relaxed); exponents beyond 2^24 "
         "where `exponent as f32` rounds; |exponent|*bit_len(B) around isize::MAX; iN::MIN magnitudes. Ops: numcmp (num_partial_cmp + num_cmp, "
         "num_eq/ne/lt/le/gt/ge must agree; FBig also through Repr<B> and with a different rounding-mode type), numeq, abscmp, abseq, ordcmp, numhash "
-        "(recorded Hasher::write calls), hasheq, log2encl (enclosure hypothesis on the real estimator). Non-trivial := the two arguments are of "
+        "(recorded Hasher::write calls), hasheq, log2encl (enclosure hypothesis on the real estimator, decided exactly), fdecode, implset. Non-trivial := the two arguments are of "
         "different kinds; distinct := distinct (op,args) lines.")
 EXPLANATION = ("Theorems (all inputs, no size bounds; for EVERY estimator satisfying the enclosure hypothesis lb <= log2|x| <= ub): each mirrored "
                "comparison function (sign -> log2-bound filter -> exact comparison after scaling) returns the order of the exact rationals, NaN "
@@ -609,7 +625,7 @@ EXPLANATION = ("Theorems (all inputs, no size bounds; for EVERY estimator satisf
 ASSUMPTIONS = [
     "the real f32 estimators satisfy the enclosure hypothesis on the compared inputs (checked per generated input by `log2encl`, incl. exponents beyond 2^24 where it failed before fix 378134e)",
     "big-integer Ord, shifts, products and powers compute their mathematical values (C01/C05/C09)",
-    "num-modular's FixedMersenneInt arithmetic is arithmetic modulo 2^127-1 and Hasher::write_i128 forwards 16 native-endian bytes to write (observed by the recording hasher)",
+    "Hasher::write_i128 forwards 16 native-endian bytes to write (observed by the recording hasher); u128::mulm computes a*b mod m",
     "FBig operands respect their constructors' invariants: significand 0 only with exponent 0 / +-1, digits <= precision (+1) when the precision is limited",
     "i128 arithmetic of the bit-length estimates does not overflow (|exponent| < 2^63, bit_len(B) <= 64)",
 ]
@@ -621,16 +637,17 @@ LEVEL_TEXT = ("Machine-checked Lean 4 theorems, for all inputs and for every est
               "estimator for every generated operand, and the impl set of the anchored files is re-derived from source.")
 LEVEL_NOTE = ("Trusted: Lean kernel; axioms propext/Classical.choice/Quot.sound (Mathlib reals are used only to STATE log2 enclosure); the "
               "correspondence harness and generators (sampling) for the tie model<->code; the f32 estimators enter only through the enclosure "
-              "hypothesis, which is tested (f64 recomputation with a tolerance far below f32 resolution), not proved; big-integer primitives and num-modular are used at their specifications (frontier list).")
+              "hypothesis, which is tested per operand with certified integer interval arithmetic, not proved; big-integer primitives and num-modular are used at their specifications (frontier list).")
 THEOREMS = ["Dashu.Props.C14." + n for n in (
     "spec_lt spec_eq spec_gt float_value_rat abs_value_rat enclosure_is_log2 "
     "filter_sound coarse_sound noFilter_sound float_cmp_ubig float_cmp_ibig float_cmp_float "
     "ratio_cmp_ubig ratio_cmp_ibig ratio_cmp_float ratio_cmp_ratio ratio_eq_ratio num_ord_exact "
     "num_eq_exact num_ord_oracle_independent ubig_cmp_prim_float ibig_cmp_prim_float float_cmp_prim_float ratio_cmp_prim_float "
     "decoded_in_range abs_ord_exact float_abs_cmp_ubig float_abs_cmp_ibig prim_abs_cmp float_abs_cmp_same_base "
-    "ord_exact ratio_abs_cmp_ratio ratio_abs_cmp_float mersenne127_prime num_hash_value hash_is_function_of_value "
-    "rat_hash_eq_body prefix_num_ord_zero prefix_num_ord_inf prefix_abs_ord_ubig prefix_abs_ord_ibig prefix_num_hash_corner "
-    "prefix_num_hash_value_weak ").split()]
+    "ord_exact ratio_abs_cmp_ratio ratio_abs_cmp_float mersenne127_prime num_hash_value num_hash_inf "
+    "mersenne_reduce_single mersenne_reduce_double mersenne_mul mersenne_pow mersenne_inv num_hash_mirrored "
+    "num_hash_value_mirrored hash_is_function_of_value rat_hash_eq_body prefix_num_ord_zero prefix_num_ord_inf prefix_abs_ord_ubig "
+    "prefix_abs_ord_ibig prefix_num_hash_corner prefix_num_hash_value_weak ").split()]
 TECHNIQUE = "Lean 4 theorems over an executable mirrored model with estimate-oracle parameters + differential correspondence model vs real code"
 JOBS = 14
 READY = True
